@@ -1288,6 +1288,104 @@ fn saved_check<G: GraphLike>(family: &'static str, index: u64, d: &DDesc, g: &G)
 /// T spiders {no, yes} x a second output {no, yes}
 pub const CAT_GRID: usize = 2 * 4 * 3 * 2 * 2 * 2 * 2;
 
+/// Staged completion: `decompose_until_depth(k)` leaves a tree of partial results
+/// (Sum / Prod nodes over undecomposed graphs), `decompose` / `decompose_parallel` then
+/// finishes it; `decompose_standard` is the library's default way "to completion". Both
+/// must give exactly E(d), like the one-shot runs.
+fn staged_case(family: &'static str, fam: TFam, index: u64, r: &mut Rng, max_t: usize, max_sp: usize) {
+    let c = ctx();
+    let d = gen_closed(r, fam, max_t, max_sp);
+    let desc = d.to_json();
+    let tc = tdiag::tcount(&d);
+    let (g, _) = d.build::<quizx::vec_graph::Graph>(None);
+    let expected = match crate::snap::eval_graph(&g) {
+        Ok(t) => t,
+        Err(_) => {
+            c.skipped();
+            return;
+        }
+    };
+    let lease = Lease::take();
+    let mut runs = 0u64;
+    let drivers = [Drv::BssT { random: false }, Drv::Cats { random: false }, Drv::DynT, Drv::Cut, Drv::Sherlock(SHERLOCK_TRIES[r.below(3)].to_vec())];
+    for drv in drivers.iter() {
+        for &simp in &[SimpFunc::NoSimp, SimpFunc::CliffordSimp, SimpFunc::FullSimp] {
+            for &split in &[false, true] {
+                let depth = 1 + r.below(3) as i64;
+                let par = r.chance(0.4);
+                let k = *r.pick(&KS);
+                let cfg = Cfg { drv: drv.clone(), simp, split };
+                let res = guard(|| {
+                    let mut dec = Decomposer::new(&g);
+                    dec.with_simp(simp).with_split_graphs_components(split);
+                    match drv {
+                        Drv::BssT { random } => {
+                            dec.decompose_until_depth(depth, &BssTOnlyDriver { random_t: *random });
+                        }
+                        Drv::Cats { random } => {
+                            dec.decompose_until_depth(depth, &BssWithCatsDriver { random_t: *random });
+                        }
+                        Drv::DynT => {
+                            dec.decompose_until_depth(depth, &DynamicTDriver);
+                        }
+                        Drv::Sherlock(t) => {
+                            dec.decompose_until_depth(depth, &SherlockDriver { tries: t.clone() });
+                        }
+                        Drv::Cut => {
+                            dec.decompose_until_depth(depth, &SpiderCuttingDriver);
+                        }
+                    }
+                    if par {
+                        lease.set().get(k).install(|| decompose_with(&mut dec, drv, true));
+                    } else {
+                        decompose_with(&mut dec, drv, false);
+                    }
+                    dec.scalar()
+                });
+                runs += 1;
+                c.count(&format!("staged:{}:depth={depth}:{}", drv.kind(), if par { "then-parallel" } else { "then-sequential" }), 1);
+                let det = |what: &str, extra: Value| json!({"what": what, "config": cfg.json(), "staged_depth": depth, "completion": if par { format!("parallel({k})") } else { "sequential".into() }, "diagram": desc, "expected": tens_json(&expected), "extra": extra});
+                match res {
+                    Err(Caught::Oracle(m)) => c.inconclusive("oracle-error", json!({"msg": m})),
+                    Err(e) => c.violation(&format!("decompose_until_depth+decompose|panic|{}|{}", e.site(), cfg.label()), family, index, det("panic", json!(e.text()))),
+                    Ok(s) => {
+                        if !scalar_matches(&s, &expected) {
+                            c.violation(&format!("decompose_until_depth+decompose|wrong-scalar|{}", cfg.label()), family, index, det("staged decomposition returns a wrong scalar", scalar_json(&s)));
+                        }
+                    }
+                }
+            }
+        }
+    }
+    // decompose_standard
+    for &simp in &[SimpFunc::NoSimp, SimpFunc::CliffordSimp, SimpFunc::FullSimp] {
+        for &split in &[false, true] {
+            let res = guard(|| {
+                let mut dec = Decomposer::new(&g);
+                dec.with_simp(simp).with_split_graphs_components(split);
+                dec.decompose_standard();
+                dec.scalar()
+            });
+            runs += 1;
+            c.count("staged:decompose_standard", 1);
+            let det = |what: &str, extra: Value| json!({"what": what, "simp": simp_name(simp), "split_components": split, "diagram": desc, "expected": tens_json(&expected), "extra": extra});
+            match res {
+                Err(Caught::Oracle(m)) => c.inconclusive("oracle-error", json!({"msg": m})),
+                Err(e) => c.violation(&format!("decompose_standard|panic|{}|{}/split={split}", e.site(), simp_name(simp)), family, index, det("panic", json!(e.text()))),
+                Ok(s) => {
+                    if !scalar_matches(&s, &expected) {
+                        c.violation(&format!("decompose_standard|wrong-scalar|{}/split={split}", simp_name(simp)), family, index, det("decompose_standard returns a wrong scalar", scalar_json(&s)));
+                    }
+                }
+            }
+        }
+    }
+    drop(lease);
+    process_events(collect_events(None), family, index);
+    c.case(family, if tc >= 1 && d.num_spiders() >= 2 { Some(d.hash() ^ 0x57a6ed) } else { None });
+    c.evals(runs.saturating_sub(1));
+}
+
 fn cat_grid_case(family: &'static str, index: u64) {
     let mut i = index as usize;
     let mut take = |n: usize| {
@@ -1478,6 +1576,13 @@ pub fn run() {
     timed(&mut fam_wall, "circuit-plugged");
     par_cases("circuit-plugged", 2 * n, move |r, i| circuit_case("circuit-plugged", i, r, max_t, cq, cd, plan));
     process_events(collect_events(None), "closed-families(leftover)", 0);
+
+    let nst = t.pick(150usize, 4000usize);
+    timed(&mut fam_wall, "staged-completion");
+    par_cases("staged-completion", nst, move |r, i| {
+        let fam = *r.pick(&[TFam::Random, TFam::Cats, TFam::Gadgets, TFam::TPair, TFam::TOnly, TFam::Multi]);
+        staged_case("staged-completion", fam, i, r, max_t.min(8), max_sp)
+    });
 
     let nd = t.pick(4000usize, 100_000usize);
     timed(&mut fam_wall, "direct-steps");
